@@ -2,6 +2,7 @@
 //
 //	go run . discardfacts    every value.Discard(x) call site of lib/query and lib/value
 //	go run . astwritefacts   every assignment of lib/query that writes through a parser.* value
+//	go run . listwritefacts  every write through a value-list parameter, every call of an in-place writer (listwrite.go)
 //	go run . stmtkinds       statement kinds and operand positions of the grammar vs the workloads of harness/cmd/c14
 //
 // Source tree: $VERIF_REPO (default /repo).  Standard library only (go/ast, go/types).
@@ -38,6 +39,8 @@ func main() {
 		genAstWriteFacts()
 	case "stmtkinds":
 		genStmtKinds()
+	case "listwritefacts":
+		genListWriteFacts()
 	default:
 		fatal("unknown mode %q", mode)
 	}
